@@ -371,6 +371,25 @@ func runC14(r *Run) {
 				fmt.Sprintf("%s: written-on-store=%v read-on-hit=%v — a cached response would differ from the origin response in this component", name, wr[name], rd[name]))
 		}
 		r.atLeast("response-carrying fields", n, 5)
+		// stored headers: a header field may occur several times (Link, Set-Cookie, Vary …); a store keyed by field
+		// name with one value per name keeps only the last occurrence
+		for i := 0; i < st.NumFields(); i++ {
+			if st.Field(i).Name() != "headers" {
+				continue
+			}
+			okMulti := true
+			if m, isMap := st.Field(i).Type().Underlying().(*types.Map); isMap {
+				if sl, isSlice := m.Elem().Underlying().(*types.Slice); isSlice {
+					if b, isBasic := sl.Elem().Underlying().(*types.Basic); isBasic && b.Kind() == types.Byte {
+						okMulti = false // map[name][]byte: one value per name
+					}
+				} else if _, isStr := m.Elem().Underlying().(*types.Basic); isStr {
+					okMulti = false
+				}
+			}
+			r.check(okMulti, "item-field:cache.item.headers:repeated-values", r.fpos(h), "the stored headers can hold several values per field name",
+				"the stored headers are a map from field name to one value: a header field the origin sent more than once (two Link lines, several Set-Cookie) is stored with its last value only, and a hit is served with fewer header lines than the origin response had")
+		}
 	})
 	r.rule("R6", "heap handles are only permuted: a slot of indexedHeap.entries is overwritten only with another slot's value, so the handle left behind a removed entry survives until put recycles it (E10)", func() {
 		isEntrySlice := func(t types.Type) bool {
